@@ -368,6 +368,9 @@ restart:
                                               d->data, d->len, &consumed) == 1)
             {
                 // we'll be restarting the compressor
+#ifdef OISF_LIBHTP_VERIF
+                htp_verif_trace(3);
+#endif
                 goto restart;
             }
 
